@@ -37,6 +37,9 @@ def main():
     sys.path[:0] = [VERIF, REPO]
     sys.dont_write_bytecode = True
     os.environ["ESRALLY_VERIF_SIM"] = "1"
+    import logging
+
+    logging.disable(logging.CRITICAL)  # Rally logs every retried fault with a traceback; nothing reads it here
     prop = sys.argv[1]
     mod = importlib.import_module(HARNESS_OF[prop])
     from sim import batch
